@@ -185,7 +185,7 @@ func c03StartWireOnce(l *c03Lists, withDNSCrypt bool) (w *c03Wire, err error) {
 	if err != nil {
 		return nil, err
 	}
-	f, dir, err := c03NewFilter()
+	f, dir, err := c03NewFilter(l.Protection)
 	if err != nil {
 		return nil, err
 	}
@@ -700,6 +700,7 @@ func TestVerifC03Sockets(t *testing.T) {
 		{"dnscrypt-udp:refused", 5}, {"dnscrypt-tcp:refused", 10}, {"dnscrypt-udp:admitted", 5}, {"dnscrypt-tcp:admitted", 5},
 		{"doh:refused", 20}, {"doh:admitted", 20}, {"doh_forwarding_header_claims_a_client_decided_the_other_way", 20},
 		{"doh_forwarding_header:trusted_proxies_explicitly_empty", 20},
+		{"protection_paused:refused_by_name_only", 10}, {"protection_off:refused_by_name_only", 5},
 		{"special_name:refused", 40}, {"ddr_name:refused:handle_ddr=true", 5},
 		{"refused_by_name", 10}, {"refused_by_client", 30}, {"tls_admitted_by_clientid_only", 2}} {
 		if n := rep.ClassCount(need.class); n < need.min {
@@ -711,6 +712,7 @@ func TestVerifC03Sockets(t *testing.T) {
 func c03RunWireConf(rep *verifkit.Report, rng *rand.Rand, idx, perConf int) {
 	l := c03GenWireLists(rng)
 	l.HandleDDR = rng.Intn(4) != 0
+	l.Protection = c03ProtectionStates[rng.Intn(len(c03ProtectionStates))]
 	switch rng.Intn(8) {
 	case 0, 1:
 		// not configured
@@ -894,6 +896,10 @@ func c03RunWireConf(rep *verifkit.Report, rng *rand.Rand, idx, perConf int) {
 		}
 		if refused {
 			rep.Class(c.Transport + ":refused")
+			rep.Class("protection_" + l.Protection + ":refused")
+			if nameBlocked && !(cv.Specified && cv.Excluded) {
+				rep.Class("protection_" + l.Protection + ":refused_by_name_only")
+			}
 			if special {
 				rep.Class("special_name:refused")
 				if strings.EqualFold(c.Name, "_dns.resolver.arpa.") {
@@ -951,6 +957,7 @@ func c03RunWireConf(rep *verifkit.Report, rng *rand.Rand, idx, perConf int) {
 			continue
 		}
 		rep.Class(c.Transport + ":admitted")
+		rep.Class("protection_" + l.Protection + ":admitted")
 		if c.Transport == "tls" && cv.AllowMode && c.ID != "" {
 			byIP := false
 			for _, it := range allow {
